@@ -38,9 +38,15 @@ def __getattr__(name):
         return _fft_func(*args, **kwargs)
 
     @func.register(da.Array)
-    def _(*args, **kwargs):
+    def _(x, *args, **kwargs):
         wrapped_func = da.fft.fft_wrap(_fft_func)
-        return wrapped_func(*args, **kwargs)
+        if name.endswith("n") and len(args) < 2 and kwargs.get("axes") is None:
+            # Shape given without axes applies to the last axes, as in scipy
+            # (dask would transform the first ones).
+            s = args[0] if args else kwargs.get("s")
+            if s is not None:
+                kwargs["axes"] = tuple(range(x.ndim - len(s), x.ndim))
+        return wrapped_func(x, *args, **kwargs)
 
     func.__qualname__ = _fft_func.__qualname__
     func.__name__ = _fft_func.__name__
